@@ -386,7 +386,8 @@ fn end_to_end_canary(scratch: &str) {
         job.front = (case % 4) as usize;
         let mut probe = Report::new();
         let real = run_job(&mut Report::new(), &job, Wrong::No);
-        if real.renamed_class_refs == 0 || real.renamed_kinds.iter().filter(|k| ["field_decl.name", "method_decl.name", "insn.field.name", "insn.invoke.name"].contains(k)).count() < 2 || !job.models.values().any(|m| format!("{}.class", m.this_class.show()) != "" && real.renamed_kinds.contains("this_class")) { continue; }
+        // needs: some class stored under a new name that no other class of the jar gives up (no name swap), renamed members
+        if job.tags.contains("two classes swap names") || !real.renamed_kinds.contains("this_class") || real.renamed_kinds.iter().filter(|k| ["field_decl.name", "method_decl.name", "insn.field.name", "insn.invoke.name"].contains(k)).count() < 2 { continue; }
         run_job(&mut probe, &job, Wrong::Identity);
         let sigs: Vec<String> = probe.violations.keys().cloned().collect();
         if !sigs.iter().any(|s| s.starts_with("C07 entry: class entry is not stored")) { eprintln!("HARNESS-ERROR end-to-end canary: a wrong expectation for class names was not flagged ({sigs:?})"); std::process::exit(3); }
